@@ -127,6 +127,14 @@
     if (v.what == "inconclusive") { hx::inconclusive("difference_cap"); return; }
     if (!v.what.empty()) {
       std::string cls = ai == bi ? "alias" : "";
+      if constexpr (kind == K_GRID) {
+        // triage: some congruence expression of the subtrahend takes non-integral values on a minuend disjunct
+        bool nonint = false;
+        for (size_t i = 0; i < UA.size() && !nonint; ++i) { const ref::Lattice& L = lat(UA[i]); if (L.empty) continue;
+          for (size_t j = 0; j < UB.size() && !nonint; ++j) for (size_t c = 0; c < UB[j].cgs.size() && !nonint; ++c) { const ref::Cg& cg = UB[j].cgs[c]; if (cg.m == 0) continue;
+            if (!ref::is_int(ref::dot(cg.a, L.p))) nonint = true; for (size_t q = 0; q < L.params.size(); ++q) if (!ref::is_int(ref::dot(cg.a, L.params[q]))) nonint = true; } }
+        if (nonint) cls += std::string(cls.empty() ? "" : "-") + "nonintegral-values-on-subtrahend-congruence";
+      }
       violation(key(S.op, v.what, cls), v.detail + "; A " + showU(UA) + " B " + showU(UB) + " result " + showU(R)); return;
     }
     if (!check_post(S.op, A, R)) return;
@@ -140,7 +148,7 @@
     S.op = "simplify_using_context_assign"; std::shared_ptr<int> res(new int(-1));
     PSBin f = [res](PS& x, const PS& y) { *res = x.simplify_using_context_assign(y) ? 1 : 0; };
     tr(pre + ".simplify_using_context_assign(#" + std::to_string(bi) + ")"); note(C, S.op, A, UA, state_word(C, B, UB) + (ai == bi ? "|alias" : "")); S.changed.insert(ai);
-    size_t before = A.size();
+    size_t before = A.size(); std::vector<D> evA = elems(A), evB = elems(B);
     Un R; if (!apply_binary(C, ai, bi, S.op, f, R)) return;
     int r = *res;   // value returned by the monitored call (the alias differential ran afterwards on copies)
     hx::count("op_checks"); hx::count("simplify_checks");
@@ -149,7 +157,16 @@
     // triage: a receiver disjunct that contains a whole non-empty context disjunct (base-level simplification then enlarges it to the universe)
     bool contains_ctx = false;
     for (size_t i = 0; i < UA.size() && !contains_ctx; ++i) for (size_t j = 0; j < UB.size() && !contains_ctx; ++j) if (!M::empty(n, UB[j])) { Un a(1, UB[j]), b(1, UA[i]); if (M::included(n, a, b, 0) == 1) contains_ctx = true; }
-    std::string cls = ai == bi ? "alias" : contains_ctx ? "disjunct-contains-context" : "";
+    // triage: does the base-level simplification of one disjunct in one context disjunct already lose/gain part of the meet,
+    // or return false on a non-empty meet?
+    bool base_fail = false; std::string base_wit;
+    for (size_t i = 0; i < evA.size() && !base_fail; ++i) for (size_t j = 0; j < evB.size() && !base_fail; ++j) {
+      D z(evA[i]); bool br = z.simplify_using_context_assign(evB[j]);
+      Un m1(1, M::meet(UA[i], UB[j])), m2(1, M::meet(M::shadow(z, n), UB[j])); Vec w;
+      if (M::included(n, m1, m2, &w) == 0 || M::included(n, m2, m1, &w) == 0 || (!br && !M::empty(n, m1[0]))) { base_fail = true; base_wit = "base level: " + text(evA[i]) + " simplified in context " + text(evB[j]) + " gives " + text(z) + " (returned " + (br ? "true" : "false") + "); "; }
+    }
+    std::string cls = std::string(ai == bi ? "alias" : "") + (base_fail ? std::string(ai == bi ? "-" : "") + "base-level" + (contains_ctx ? "-disjunct-contains-context" : "") : "");
+    if (!base_wit.empty()) tr(" [" + base_wit + "]");
     if (check_same(key(S.op, "union_changed", cls), key(S.op, "union_changed", cls), n, M1, M2, "meet with the context before", "meet with the context after") == 0) return;
     checked(); if (A.size() > before) { violation(key(S.op, "size_increased", cls), "from " + std::to_string(before) + " to " + std::to_string(A.size()) + " disjuncts"); return; }
     checked(); if (ai != bi && r == 0 && nonempty_count(n, M1) > 0) { violation(key(S.op, "wrong_boolean", cls), "false returned although the meet with the context is not empty"); return; }
@@ -229,22 +246,28 @@
     else if (w == 3 || w == 4) {
       bool mx = (w == 3); Linear_Expression e = mild_expr(n); tr(pre + (mx ? ".maximize(" : ".minimize(") + str(e) + ")");
       Coefficient num, den; bool att = false; Generator g(point());
+      std::vector<D> ev = elems(A);
       bool ok = mx ? A.maximize(e, num, den, att, g) : A.minimize(e, num, den, att, g);
       Coefficient num2, den2; bool att2 = false; bool ok2 = mx ? A.maximize(e, num2, den2, att2) : A.minimize(e, num2, den2, att2);
-      if constexpr (kind != K_GRID) {
-        Vec ea; Q eb; ref::conv(e, n, ea, eb); if (!mx) for (size_t i = 0; i < ea.size(); ++i) ea[i] = -ea[i];
-        bool any = false, bounded = true, attained = false; Q best;
-        for (size_t i = 0; i < UA.size(); ++i) { ref::SupResult s = ref::supremum(n, UA[i], ea); if (!s.nonempty) continue; if (!s.bounded) { bounded = false; break; }
-          if (!any || s.sup > best) { best = s.sup; attained = s.attained; } else if (s.sup == best) attained = attained || s.attained; any = true; }
-        checked(2); hx::count("maxmin_checks");
-        bool rok = any && bounded; std::string d = str(e) + " over " + showU(UA);
-        if (ok != rok) { violation(key(S.op, "wrong_boolean", ok ? "ppl-true" : "ppl-false"), d); return; }
-        if (ok2 != ok) { violation(key(S.op, "wrong_boolean", "overloads-disagree"), d); return; }
-        if (ok) {
-          Q val = ref::toQ(num) / ref::toQ(den); Q rv = mx ? Q(best + eb) : Q(-best + eb);
-          if (val != rv) { std::ostringstream o; o << "PPL " << val << " reference " << rv << " for " << d; violation(key(S.op, "wrong_value"), o.str()); return; }
-          if (ref::toQ(num2) / ref::toQ(den2) != val || att2 != att) { violation(key(S.op, "wrong_value", "overloads-disagree"), d); return; }
-          if (att != attained) { violation(key(S.op, "wrong_boolean", att ? "attained-ppl-true" : "attained-ppl-false"), d); return; }
+      // the extremum over a union is the best of the base-level extrema over the non-empty disjuncts (both overloads)
+      for (int ver = 0; ver < 2; ++ver) {
+        bool any = false, fail = false, attained = false; Q best;
+        for (size_t i = 0; i < ev.size() && !fail; ++i) {
+          D q(ev[i]); if (q.is_empty()) continue;
+          Coefficient bn, bd; bool bm = false; Generator bg(point());
+          bool r = ver == 0 ? (mx ? q.maximize(e, bn, bd, bm, bg) : q.minimize(e, bn, bd, bm, bg)) : (mx ? q.maximize(e, bn, bd, bm) : q.minimize(e, bn, bd, bm));
+          if (!r) { fail = true; break; }
+          Q v = ref::toQ(bn) / ref::toQ(bd);
+          if (!any || (mx ? v > best : v < best)) { best = v; attained = bm; } else if (v == best) attained = attained || bm;
+          any = true;
+        }
+        checked(); hx::count("maxmin_checks");
+        bool rok = any && !fail; bool pok = ver == 0 ? ok : ok2; std::string d = str(e) + " over " + showU(UA); std::string vc = ver == 0 ? "with-generator-" : "";
+        if (pok != rok) { violation(key(S.op, "wrong_boolean", vc + (pok ? "ppl-true" : "ppl-false")), d); return; }
+        if (pok) {
+          Q val = ver == 0 ? Q(ref::toQ(num) / ref::toQ(den)) : Q(ref::toQ(num2) / ref::toQ(den2)); bool pa = ver == 0 ? att : att2;
+          if (val != best) { std::ostringstream o; o << "PPL " << val << " best base-level value " << best << " for " << d; violation(key(S.op, "wrong_value", vc + "value"), o.str()); return; }
+          if (pa != attained) { violation(key(S.op, "wrong_boolean", vc + (pa ? "attained-ppl-true" : "attained-ppl-false")), d); return; }
         }
       }
     }
@@ -314,6 +337,14 @@
     tr(pre + ".ascii_roundtrip()"); note(C, S.op, A, UA); hx::count("ascii_roundtrips"); checked();
     std::string d1 = dump(A); std::istringstream in(d1);
     PS* L = new PS(0, UNIVERSE); std::string k = ":" + inst();
+    // triage: does the base-level element round trip already fail (then the powerset layer is not to blame)?
+    bool base_ok = true, base_same = true;
+    for (typename PS::const_iterator i = A.begin(), e = A.end(); i != e; ++i) {
+      std::ostringstream o; i->pointset().ascii_dump(o); std::istringstream bi(o.str()); D q;
+      if (!q.ascii_load(bi) || !q.OK()) { base_ok = false; continue; }
+      std::ostringstream o2; q.ascii_dump(o2); if (o2.str() != o.str()) base_same = false;
+    }
+    k += base_ok && base_same ? "-powerset-level" : "-base-level";
     if (!L->ascii_load(in)) { violation("C15.pset.load_failed" + k, d1.substr(0, 400)); delete L; return; }
     if (!L->OK()) { violation("C15.pset.loaded_not_OK" + k, d1.substr(0, 400)); delete L; return; }
     if ((int) L->space_dimension() != n) { violation("C15.pset.dimension_differs" + k, d1.substr(0, 400)); delete L; return; }
